@@ -333,7 +333,8 @@ func (m *Mux) fetch(pattern string, mount *node) (*node, []pathParam) {
 		}
 
 		if t[0] == pmark || t[0] == pwild {
-			if lt == 1 {
+			// A placeholder needs a name, while the anonymous placeholder must stand alone
+			if (t[0] == pmark) == (lt == 1) {
 				panic(invalidPattern)
 			}
 			if t[0] == pmark {
